@@ -811,6 +811,7 @@ func C01(c *vf.Ctx) {
 			maxRPC: 1, maxStims: 8, invs: "TypeOK StreamInvs OneWrite WireOrdered CloseOnce"},
 	}
 	runSysFamily(c, fam, nT, nR)
+	sizeSweep(c)
 	c.Cov["rule"] = "bidirectional streaming and unary workloads with up to three client goroutines (one- and two-frame messages, receives, half-close, close), handler sends/receives, every write parked and released individually, deliveries delayed arbitrarily, the receiver's Unmarshal gated (lent-buffer window); five configurations of writer buffer / manual flush / soft cancel. Monitors on the real observations: received multiset = first k submitted (wire order) at every quiescence, no duplicates, all frames on the transport when MsgSend returns nil. Every run validated against SystemTrace.tla."
 }
 
